@@ -63,4 +63,28 @@ PROPS = {
              "both; class/sql_table/code: >= requested); no dimension given, label inside and no icon => the text area (GetInnerBox of the final box) "
              ">= label dimensions - 1 px and inside the box. non-trivial = non-rectangular shape or label > 20 runes.",
     ),
+    "C26": dict(
+        engine="p_layout", quick_checks=500, thorough_checks=12000, quick_shards=14, thorough_shards=16, quick_budget_s=400, thorough_budget_s=3000,
+        rule=_GEN + ". oracle A: own comparator (canonical attributes, hierarchy and order, connections with endpoints/arrows/index, plus boxes, label and "
+             "icon positions, label dimensions, routes, curve flags, table column indexes, z-index) finds g == Deserialize(Serialize(g)) before and after "
+             "layout. oracle B: laying out through exactly the sequence exec.go/serve.go perform (Serialize -> Deserialize -> Layout -> Serialize -> "
+             "Deserialize) renders to byte-identical SVG as in-process layout. non-trivial = IDs needing quotes, class/table, or a nested container.",
+        assumptions=["the real plugin subprocess is replaced by an in-process wrapper performing the same serialisation steps"],
+    ),
+    "C28": dict(
+        engine="p_layout", quick_checks=280, thorough_checks=8000, quick_shards=14, thorough_shards=16, quick_budget_s=400, thorough_budget_s=3000,
+        rule="1-6 objects (any shape incl. class/sql_table/text, every 4th a container) and 0-5 connections with random sets of 1-6 style keywords and "
+             "in-domain values, compiled, laid out with a stub core layout (1/9 with real dagre and one theme) and exported under EVERY theme of the "
+             "light and dark catalogs; core = all style keywords at once on 10 shape kinds. oracle: len(Shapes)==len(Objects) with equal IDs in order, "
+             "connections likewise with source and destination IDs, and every style value the user set is found unchanged in the exported field "
+             "(text-transform through the label). non-trivial = >=3 user style values per theme.",
+    ),
+    "C29": dict(
+        engine="p_layout", quick_checks=600, thorough_checks=15000, quick_shards=14, thorough_shards=16, quick_budget_s=400, thorough_budget_s=3000,
+        rule=_GEN + " with a random padding 0-200. oracle A: every element enumerated independently from the exported diagram (shape boxes +- half "
+             "stroke, 3d/multiple/shadow extents, outside label and icon boxes, route points, connection label boxes) lies inside BoundingBox() +-1. "
+             "oracle B: the inner viewBox contains the bounding box plus the padding, and every primitive drawn in the SVG (rect, ellipse, circle, "
+             "image, foreignObject, line, flattened path; outside defs/mask/marker/pattern; enclosing translate() applied) lies inside the viewBox +-1. "
+             "non-trivial = outside label/icon, 3d/multiple/shadow, or arrowhead label.",
+    ),
 }
